@@ -34,22 +34,30 @@ macro_rules! validator_unit {
 
 // ---------------- quick tier: N = 6 ----------------
 // @unit C10.unique_name.n6 props=C10 kind=bounded bound=N<=6 fn=zbus_names::unique_name::validate_bytes timeout=600
+#[cfg(not(verif_skip_c10_unique_name__n6))]
 validator_unit!(c10_unique_name__n6, 6, 9, crate::unique_name::validate_bytes, spec_unique_name, "C10.unique_name.n6.accepts_iff_spec");
 // @unit C10.well_known_name.n6 props=C10 kind=bounded bound=N<=6 fn=zbus_names::well_known_name::validate_bytes timeout=600
+#[cfg(not(verif_skip_c10_well_known_name__n6))]
 validator_unit!(c10_well_known_name__n6, 6, 9, crate::well_known_name::validate_bytes, spec_well_known_name, "C10.well_known_name.n6.accepts_iff_spec");
 // @unit C10.interface_name.n6 props=C10 kind=bounded bound=N<=6 fn=zbus_names::interface_name::validate_bytes timeout=600
+#[cfg(not(verif_skip_c10_interface_name__n6))]
 validator_unit!(c10_interface_name__n6, 6, 9, crate::interface_name::validate_bytes, spec_interface_name, "C10.interface_name.n6.accepts_iff_spec");
 // @unit C10.member_name.n6 props=C10 kind=bounded bound=N<=6 fn=zbus_names::member_name::validate_bytes timeout=600
+#[cfg(not(verif_skip_c10_member_name__n6))]
 validator_unit!(c10_member_name__n6, 6, 9, crate::member_name::validate_bytes, spec_member_name, "C10.member_name.n6.accepts_iff_spec");
 
 // ---------------- thorough tier: N = 10 ----------------
 // @unit C10.unique_name.n10 props=C10 kind=bounded bound=N<=10 tier=thorough fn=zbus_names::unique_name::validate_bytes timeout=1800
+#[cfg(not(verif_skip_c10_unique_name__n10))]
 validator_unit!(c10_unique_name__n10, 10, 13, crate::unique_name::validate_bytes, spec_unique_name, "C10.unique_name.n10.accepts_iff_spec");
 // @unit C10.well_known_name.n10 props=C10 kind=bounded bound=N<=10 tier=thorough fn=zbus_names::well_known_name::validate_bytes timeout=1800
+#[cfg(not(verif_skip_c10_well_known_name__n10))]
 validator_unit!(c10_well_known_name__n10, 10, 13, crate::well_known_name::validate_bytes, spec_well_known_name, "C10.well_known_name.n10.accepts_iff_spec");
 // @unit C10.interface_name.n10 props=C10 kind=bounded bound=N<=10 tier=thorough fn=zbus_names::interface_name::validate_bytes timeout=1800
+#[cfg(not(verif_skip_c10_interface_name__n10))]
 validator_unit!(c10_interface_name__n10, 10, 13, crate::interface_name::validate_bytes, spec_interface_name, "C10.interface_name.n10.accepts_iff_spec");
 // @unit C10.member_name.n10 props=C10 kind=bounded bound=N<=10 tier=thorough fn=zbus_names::member_name::validate_bytes timeout=1800
+#[cfg(not(verif_skip_c10_member_name__n10))]
 validator_unit!(c10_member_name__n10, 10, 13, crate::member_name::validate_bytes, spec_member_name, "C10.member_name.n10.accepts_iff_spec");
 
 // ---- "however constructed": TryFrom<&str> accepts exactly what the grammar accepts (ASCII strings, N <= 5) ----
@@ -85,18 +93,25 @@ macro_rules! try_from_unit {
     };
 }
 // @unit C10.try_from.unique_name props=C10 kind=bounded bound=ASCII,N<=5 fn=<zbus_names::UniqueName.as.TryFrom<&str>>::try_from timeout=600
+#[cfg(not(verif_skip_c10_try_from_unique_name__n5))]
 try_from_unit!(c10_try_from_unique_name__n5, 5, 8, UniqueName<'_>, spec_unique_name, "C10.try_from.unique_name.accepts_iff_spec", "C10.try_from.unique_name.same_string");
 // @unit C10.try_from.well_known_name props=C10 kind=bounded bound=ASCII,N<=5 fn=<zbus_names::WellKnownName.as.TryFrom<&str>>::try_from timeout=600
+#[cfg(not(verif_skip_c10_try_from_well_known_name__n5))]
 try_from_unit!(c10_try_from_well_known_name__n5, 5, 8, WellKnownName<'_>, spec_well_known_name, "C10.try_from.well_known_name.accepts_iff_spec", "C10.try_from.well_known_name.same_string");
 // @unit C10.try_from.interface_name props=C10 kind=bounded bound=ASCII,N<=5 fn=<zbus_names::InterfaceName.as.TryFrom<&str>>::try_from timeout=600
+#[cfg(not(verif_skip_c10_try_from_interface_name__n5))]
 try_from_unit!(c10_try_from_interface_name__n5, 5, 8, InterfaceName<'_>, spec_interface_name, "C10.try_from.interface_name.accepts_iff_spec", "C10.try_from.interface_name.same_string");
 // @unit C10.try_from.error_name props=C10 kind=bounded bound=ASCII,N<=5 fn=<zbus_names::ErrorName.as.TryFrom<&str>>::try_from,zbus_names::error_name::validate timeout=600
+#[cfg(not(verif_skip_c10_try_from_error_name__n5))]
 try_from_unit!(c10_try_from_error_name__n5, 5, 8, ErrorName<'_>, spec_interface_name, "C10.try_from.error_name.accepts_iff_spec", "C10.try_from.error_name.same_string");
 // @unit C10.try_from.member_name props=C10 kind=bounded bound=ASCII,N<=5 fn=<zbus_names::MemberName.as.TryFrom<&str>>::try_from timeout=600
+#[cfg(not(verif_skip_c10_try_from_member_name__n5))]
 try_from_unit!(c10_try_from_member_name__n5, 5, 8, MemberName<'_>, spec_member_name, "C10.try_from.member_name.accepts_iff_spec", "C10.try_from.member_name.same_string");
 // @unit C10.try_from.property_name props=C10 kind=bounded bound=ASCII,N<=5 fn=<zbus_names::PropertyName.as.TryFrom<&str>>::try_from,zbus_names::property_name::ensure_correct_property_name timeout=600
+#[cfg(not(verif_skip_c10_try_from_property_name__n5))]
 try_from_unit!(c10_try_from_property_name__n5, 5, 8, PropertyName<'_>, spec_property_name, "C10.try_from.property_name.accepts_iff_spec", "C10.try_from.property_name.same_string");
 // @unit C10.try_from.bus_name props=C10 kind=bounded bound=ASCII,N<=5 fn=<zbus_names::BusName.as.TryFrom<&str>>::try_from timeout=600
+#[cfg(not(verif_skip_c10_try_from_bus_name__n5))]
 try_from_unit!(c10_try_from_bus_name__n5, 5, 8, BusName<'_>, spec_bus_name, "C10.try_from.bus_name.accepts_iff_spec", "C10.try_from.bus_name.same_string");
 
 // ---- the 255-byte limit: a concrete maximal-length valid name at length 254 / 255 / 256 (instances) -----
@@ -119,15 +134,20 @@ macro_rules! limit_unit {
     };
 }
 // @unit C10.limit255.member_name props=C10 kind=instance bound=concrete-template,len=254..256 tier=thorough fn=zbus_names::member_name::validate_bytes timeout=900
+#[cfg(not(verif_skip_c10_limit255_member_name__len3))]
 limit_unit!(c10_limit255_member_name__len3, crate::member_name::validate_bytes, spec_member_name, b'a', b'a', b'a', b'a', "C10.limit255.member_name.accepts_iff_spec");
 // @unit C10.limit255.interface_name props=C10 kind=instance bound=concrete-template,len=254..256 tier=thorough fn=zbus_names::interface_name::validate_bytes timeout=900
+#[cfg(not(verif_skip_c10_limit255_interface_name__len3))]
 limit_unit!(c10_limit255_interface_name__len3, crate::interface_name::validate_bytes, spec_interface_name, b'a', b'.', b'a', b'a', "C10.limit255.interface_name.accepts_iff_spec");
 // @unit C10.limit255.well_known_name props=C10 kind=instance bound=concrete-template,len=254..256 tier=thorough fn=zbus_names::well_known_name::validate_bytes timeout=900
+#[cfg(not(verif_skip_c10_limit255_well_known_name__len3))]
 limit_unit!(c10_limit255_well_known_name__len3, crate::well_known_name::validate_bytes, spec_well_known_name, b'a', b'.', b'a', b'a', "C10.limit255.well_known_name.accepts_iff_spec");
 // @unit C10.limit255.unique_name props=C10 kind=instance bound=concrete-template,len=254..256 tier=thorough fn=zbus_names::unique_name::validate_bytes timeout=900
+#[cfg(not(verif_skip_c10_limit255_unique_name__len3))]
 limit_unit!(c10_limit255_unique_name__len3, crate::unique_name::validate_bytes, spec_unique_name, b':', b'1', b'.', b'a', "C10.limit255.unique_name.accepts_iff_spec");
 
 // @unit CANARY.zbus_names props=CANARY kind=complete expect=fail timeout=300
+#[cfg(not(verif_skip_canary_zbus_names_must_fail))]
 #[cfg(kani)]
 #[kani::proof]
 #[kani::unwind(6)]
